@@ -153,6 +153,19 @@ def doc_worker(kp, job):
             if tokens.dump_token(na.token) != tokens.dump_token(nb.token):
                 viol.append(('other-tokens', f'line {si} cell {pi}: token {na.token.encoding!r} differs from the undamaged document', w))
                 break
+    # ... and the measures: unless a barline cell itself was damaged, the document has the measures it has without the
+    # damage, starting on the same lines (a malformed cell is still a cell of the music)
+    try:
+        music = {'NOTE_REST', 'NOTE', 'REST', 'CHORD'}
+        if placed and all(ht in ('**kern', '**root') and m != '' and (m in MUST_REJECT or docs.kern_rejects(kp, m)) and
+                          ln < len(ref.tree.stages) and ci < len(ref.tree.stages[ln]) and ref.tree.stages[ln][ci].token is not None and
+                          ref.tree.stages[ln][ci].token.category.name in music for ln, ci, m, ht in placed):
+            # every damaged cell was a note, rest or chord and is now an error: still a cell of the music
+            ma, mb = list(doc.measure_start_tree_stages), list(ref.measure_start_tree_stages)
+            if ma != mb:
+                viol.append(('other-tokens', f'notes replaced by malformed cells: the measures start on lines {ma} with the damage and on lines {mb} without it', w))
+    except AttributeError:
+        pass
     # malformed cells are exported verbatim, in place (default export: kern)
     out = docs.impl_dumps(kp, doc)
     if out.startswith('ok:'):
